@@ -185,6 +185,11 @@ def gen_c06(ctx):
                    "/// @encodes decoder::sgr_face, decoder::sgr_color, decoder::number_decode, decoder::GraphicRenditionMatcher::decode, face::FaceModify::apply\n"
                    "#[cfg_attr(kani, kani::proof)]\n#[cfg_attr(kani, kani::unwind(%d))]\npub fn c06_sgr_face_len%d() {\n"
                    "    sgr_face_case::<%d, %d>()\n}\n" % (tier, 900 if n <= 2 else 3000, n, max(n + 3, 6), n, n, n + 1))
+    for (dr, dg, db, tier) in ((1, 1, 1, "quick"), (3, 3, 3, "quick"), (2, 3, 1, "thorough"), (3, 1, 2, "thorough")):
+        out.append("/// @tier %s @timeout 900\n/// @bounds R, G, B with %d/%d/%d decimal digits (every value, also above 255), followed by the groups `48`, `5`\n"
+                   "/// @encodes decoder::sgr_color, decoder::number_decode\n"
+                   "#[cfg_attr(kani, kani::proof)]\n#[cfg_attr(kani, kani::unwind(8))]\npub fn c06_sgr_color_%d%d%d() {\n"
+                   "    sgr_color_case::<%d, %d, %d>()\n}\n" % (tier, dr, dg, db, dr, dg, db, dr, dg, db))
     return {"c06_gen": "\n".join(out)}
 
 
@@ -303,10 +308,11 @@ def gen_c03(ctx):
             step(3, 2, b, r, ck, k, "thorough", 1800)
             step(2, 3, b, r, ck, k, "thorough", 1800)
     # one decode call that processes at most one byte (empty read, one input byte, one rescheduled byte)
-    for (b, r, ck, k, n) in [(0, 0, 0, 0, 0), (1, 0, 1, 1, 0), (2, 0, 1, 1, 0), (0, 0, 0, 0, 1), (1, 0, 1, 1, 1), (2, 1, 1, 1, 0), (1, 1, 0, 0, 0)]:
+    for (b, r, ck, k, n) in [(0, 0, 0, 0, 0), (1, 0, 1, 1, 0), (2, 0, 1, 1, 0), (0, 0, 0, 0, 1), (1, 0, 1, 1, 1)]:
         call(2, 2, b, r, ck, k, n, "quick")
-    for (b, r, ck, k, n) in [(1, 1, 1, 1, 1), (0, 1, 0, 0, 2), (2, 2, 1, 1, 1)]:
-        call(2, 2, b, r, ck, k, n, "thorough", 3000)
+    # a rescheduled byte makes the SmallVec length symbolic inside decode's loop: > 50 min, thorough only
+    for (b, r, ck, k, n) in [(2, 1, 1, 1, 0), (1, 1, 0, 0, 0), (1, 1, 1, 1, 1), (0, 1, 0, 0, 2), (2, 2, 1, 1, 1)]:
+        call(2, 2, b, r, ck, k, n, "thorough", 6000)
     for (b, r, ck, k, n) in [(1, 0, 1, 1, 2), (2, 1, 1, 2, 2), (0, 2, 0, 0, 3), (3, 2, 1, 2, 2)]:
         call(2, 2, b, r, ck, k, n, "thorough")
     for (s, l, n, tier) in [(2, 2, 2, "quick"), (2, 2, 3, "thorough"), (3, 2, 3, "thorough"), (2, 2, 4, "thorough"), (3, 3, 4, "thorough")]:
@@ -479,8 +485,9 @@ MATCHER_NAMES = {1: "cursor", 2: "decmode", 3: "da1", 4: "sgr", 5: "kittyimg", 6
 MATCHER_INSTANCES = {
     1: [(0, "quick", 900), (1, "thorough", 1800), (2, "thorough", 3000)],
     2: [(0, "quick", 900), (1, "thorough", 1800)],
-    3: [(0, "quick", 900), (1, "quick", 900), (2, "thorough", 1800)],
-    4: [(0, "quick", 900), (1, "quick", 900), (2, "thorough", 1800), (3, "thorough", 3000)],
+    # DA1 collects into a BTreeSet, SGR splits on symbolic bytes: neither finishes in 20 min with one symbolic byte
+    3: [(0, "thorough", 3000), (1, "thorough", 3000)],
+    4: [(0, "quick", 900), (1, "thorough", 3000), (2, "thorough", 3000)],
     5: [(0, "thorough", 1800), (1, "thorough", 3000)],
     6: [(0, "quick", 900), (1, "quick", 900), (2, "thorough", 1800), (3, "thorough", 3000)],
     7: [(0, "thorough", 1800), (1, "thorough", 3000)],
@@ -676,7 +683,7 @@ def gen_c13(ctx):
         out.append("/// @tier %s @timeout %d\n/// @bounds tree shape %d (%d nodes) with node colours under the k-d invariant and any query colour, "
                    "channels 0..=%d\n/// @encodes image::KDTree::find (find_rec)\n"
                    "#[cfg_attr(kani, kani::proof)]\n#[cfg_attr(kani, kani::unwind(%d))]\npub fn c13_kd_find_shape%d_ch%d() {\n    find_case::<%d, %d>()\n}\n"
-                   % (tier, timeout, shape, shape, ch, {1: 3, 2: 4, 3: 4, 4: 5}[shape], shape, ch, shape, ch))
+                   % (tier, timeout, shape, shape, ch, {1: 4, 2: 4, 3: 4, 4: 5}[shape], shape, ch, shape, ch))
     return {"c13_gen": "\n".join(out)}
 
 
